@@ -212,16 +212,31 @@ func (cel *CryptoAgileLog) Unmarshal(r io.Reader) error {
 	if err := littleRead(r, "Header", &cel.Header); err != nil {
 		return err
 	}
+	cr := &countingReader{r: r}
 	for {
+		start := cr.n
 		evt := &TCGPCREvent2{}
-		if err := littleRead(r, "Event", evt); err != nil {
-			if errors.Is(err, io.EOF) {
+		if err := littleRead(cr, "Event", evt); err != nil {
+			// The log only ends cleanly on an event boundary.
+			if errors.Is(err, io.EOF) && cr.n == start {
 				return nil
 			}
 			return err
 		}
 		cel.Events = append(cel.Events, evt)
 	}
+}
+
+// countingReader counts the bytes read through it.
+type countingReader struct {
+	r io.Reader
+	n int64
+}
+
+func (c *countingReader) Read(p []byte) (int, error) {
+	n, err := c.r.Read(p)
+	c.n += int64(n)
+	return n, err
 }
 
 // Marshal writes a CryptoAgileLog to the given writer
